@@ -342,6 +342,68 @@ fn verif_harness_ext(toks: &[&str]) -> String {
                 finite as u8
             )
         }
+        // cfgcalls <rate> <call;call;...>: apply builder calls in the given order, print the builder's getters as
+        // order-preserving integer keys of the f32 values, build, and print the constructed window lengths
+        ["cfgcalls", rate, calls] => {
+            fn key(x: f32) -> i64 {
+                let b = x.to_bits();
+                if b & 0x8000_0000 != 0 { -((b & 0x7fff_ffff) as i64) } else { b as i64 }
+            }
+            fn fb(v: &str) -> f32 { f32::from_bits(u32::from_str_radix(v.trim_start_matches("0x"), 16).unwrap()) }
+            fn window_len(dbg: &str, marker: &str) -> usize {
+                match dbg.find(marker) {
+                    Some(i) => {
+                        let rest = &dbg[i + marker.len()..];
+                        let end = rest.find(']').unwrap();
+                        let body = rest[..end].trim();
+                        if body.is_empty() { 0 } else { body.split(',').count() }
+                    }
+                    None => usize::MAX,
+                }
+            }
+            let rate: u32 = rate.parse().unwrap();
+            let mut b = sameold::SameReceiverBuilder::new(rate);
+            for c in calls.split(';').filter(|c| !c.is_empty() && *c != "-") {
+                let a: Vec<&str> = c.split(':').collect();
+                match a[0] {
+                    "dc" => { b.with_dc_blocker_length(fb(a[1])); }
+                    "agc" => { b.with_agc_bandwidth(fb(a[1])); }
+                    "gain" => { b.with_agc_gain_limits(fb(a[1]), fb(a[2])); }
+                    "tbw" => { b.with_timing_bandwidth(fb(a[1]), fb(a[2])); }
+                    "dev" => { b.with_timing_max_deviation(fb(a[1])); }
+                    "sqp" => { b.with_squelch_power(fb(a[1]), fb(a[2])); }
+                    "sqbw" => { b.with_squelch_bandwidth(fb(a[1])); }
+                    "pre" => { b.with_preamble_max_errors(a[1].parse().unwrap()); }
+                    "pfx" => { b.with_frame_prefix_max_errors(a[1].parse().unwrap()); }
+                    "inv" => { b.with_frame_max_invalid(a[1].parse().unwrap()); }
+                    "noeq" => { b.without_adaptive_equalizer(); }
+                    "eq" => {
+                        let mut e = sameold::EqualizerBuilder::new();
+                        if a[1] != "-" { e.with_filter_order(a[1].parse().unwrap(), a[2].parse().unwrap()); }
+                        if a[3] != "-" { e.with_relaxation(fb(a[3])); }
+                        if a[4] != "-" { e.with_regularization(fb(a[4])); }
+                        b.with_adaptive_equalizer(&e);
+                    }
+                    _ => panic!("bad call"),
+                }
+            }
+            let eqs = match b.adaptive_equalizer() {
+                Some(e) => format!("{}:{}:{}:{}", e.filter_order().0, e.filter_order().1, key(e.relaxation()), key(e.regularization())),
+                None => "none".to_owned(),
+            };
+            let getters = format!("{} {} {} {} {} {} {} {} {} {} {} {} {} {}",
+                key(b.dc_blocker_length()), key(b.agc_bandwidth()), key(b.agc_gain_limits()[0]), key(b.agc_gain_limits()[1]),
+                key(b.timing_bandwidth().0), key(b.timing_bandwidth().1), key(b.timing_max_deviation()),
+                key(b.squelch_power().0), key(b.squelch_power().1), key(b.squelch_bandwidth()),
+                b.preamble_max_errors(), eqs, b.frame_prefix_max_errors(), b.frame_max_invalid());
+            let rx = b.build();
+            let dbg = format!("{:?}", rx);
+            format!("ok {} lens={},{},{},{}", getters,
+                window_len(&dbg, "ff: MovingAverage { window: Window(["),
+                window_len(&dbg, "window_input: Window(["),
+                window_len(&dbg, "feedforward_wind: Window(["),
+                window_len(&dbg, "feedback_wind: Window(["))
+        }
         // cfgbuild key=value ...: build a receiver from builder parameters and run it briefly
         ["cfgbuild", rest @ ..] => {
             let f = |k: &str| -> Option<f32> {
